@@ -8,7 +8,7 @@ def b (x : Bool) : String := if x then "1" else "0"
 /-- * `fix <wire>` → `ok <wire>` | `crash:<PythonExceptionType>`
     * `surrogates <code>` → `ok <hi> <lo>` | `crash:ViolationError`
     * `utf16 <text>` → text of code units
-    * `hyp <wire>` → `<NoDotNoComplement 0/1> <NoSurrogateLiterals 0/1>`
+    * `hyp <wire>` → `<NoDotNoComplement 0/1> <NoSurrogateLiterals 0/1> <FixWF 0/1>`
     * `scalar <text>` → `<Scalar 0/1> <BmpOnly 0/1>` -/
 def handle : List String → Option String
   | ["fix", w] => do
@@ -26,7 +26,7 @@ def handle : List String → Option String
     some (Text.enc (utf16 t))
   | ["hyp", w] => do
     let r ← Wire.dec w
-    some (b (ndcUnion r) ++ " " ++ b (nslUnion r))
+    some (b (ndcUnion r) ++ " " ++ b (nslUnion r) ++ " " ++ b (wfUnion r))
   | ["scalar", t] => do
     let t ← Text.dec t
     some (b (decide (Scalar t)) ++ " " ++ b (decide (BmpOnly t)))
